@@ -970,7 +970,84 @@ def work_payloads(arg):
     return part
 
 
+def work_fragmented_requests(arg):
+    """Keep-alive connection to a real Valet played by a raw client socket: the 2nd (and 3rd) request arrives in
+    two receives with server passes in between; the app must see every request exactly as sent."""
+    core.use_repo()
+    from mc import net
+    from ioflo.aio.http import clienting, serving
+    if not _FSM:
+        _FSM.append(net.FakeSocketModule().install())
+    part = core.Part()
+    first = b"GET /r0f HTTP/1.1\r\nHost: h\r\n\r\n"
+    later = [("POST", "/r1f", b"POST /r1f HTTP/1.1\r\nHost: h\r\nContent-Type: text/plain\r\nContent-Length: 9\r\n\r\npayload-1", "payload-1"),
+             ("PUT", "/r1s", b"PUT /r1s HTTP/1.1\r\nHost: h\r\nTransfer-Encoding: chunked\r\n\r\n4\r\npayl\r\n5\r\noad-1\r\n0\r\n\r\n", "payload-1"),
+             ("GET", "/r1f", b"GET /r1f HTTP/1.1\r\nHost: h\r\nAccept: */*\r\n\r\n", "")]
+
+    def exchange(valet, ck, sock, pieces, passes):
+        for i, piece in enumerate(pieces):
+            sock.send(piece)
+            for _ in range(passes if i < len(pieces) - 1 else 4):
+                valet.serviceAll()
+                ck.advance(0.05)
+        data = b""
+        try:
+            while True:
+                d = sock.recv(65536)
+                if not d:
+                    break
+                data += d
+        except OSError:
+            pass
+        r = clienting.Respondent(msg=bytearray(data), method="GET")
+        r.parse()
+        if r.parser is not None or r.errored or r.msg:
+            return None, data
+        return r, data
+
+    for m, path, wire, echo in later:
+        for cut in range(1, len(wire)):
+            for passes in (1, 2):
+                fn = net.FakeNet()
+                _FSM[0].net = fn
+                ck = net.clock()
+                valet = serving.Valet(app=seq_app, ha=("", 8092), store=ck)
+                if not valet.open():
+                    raise core.BrokenCheck("Valet.open failed")
+                sock = fn.socket(name="client")
+                sock.connect_ex(("127.0.0.1", 8092))
+                case = "GET /r0f then %s %s delivered as %s with %d server pass(es) between the receives" % (
+                    m, path, split.show([wire[:cut], wire[cut:]], limit=300), passes)
+                replay = dict(direction="fragmented-request", first=first, second=wire, cut=cut, passes_between=passes,
+                              how="raw client socket on the fake net -> real Valet(seq_app); Valet.serviceAll() between the receives")
+                part.evaluations += 1
+                part.nontrivial("fragreq %s %d %d" % (path + m, cut, passes))
+                try:
+                    r1, raw1 = exchange(valet, ck, sock, [first], 1)
+                    r2, raw2 = exchange(valet, ck, sock, [wire[:cut], wire[cut:]], passes)
+                except Exception as ex:
+                    part.outcome("request-fragmented:raises")
+                    part.violation("request-fragmented|raises:%s|%s" % (type(ex).__name__, innermost(ex)), case,
+                                   "%s: Valet.serviceAll raised %r" % (case, ex), replay)
+                    continue
+                if r1 is None or r1.status != 200 or r1.headers.get("x-path") != "/r0f":
+                    raise core.BrokenCheck("first whole request not answered: %r" % raw1[:200])
+                problem = None
+                if r2 is None:
+                    problem = ("no-response", "no complete response to the second request (server sent %r)" % raw2[:120])
+                elif (r2.status, r2.headers.get("x-method"), r2.headers.get("x-path"), r2.headers.get("x-body")) != (200, m, path, echo):
+                    problem = ("wrong-request-seen", "the app saw %r, the client sent %r" % (
+                        (r2.status, r2.headers.get("x-method"), r2.headers.get("x-path"), r2.headers.get("x-body")), (200, m, path, echo)))
+                part.outcome("request-fragmented:%s" % (problem[0] if problem else "ok"))
+                if problem:
+                    part.violation("request-fragmented|%s" % problem[0], case, "%s: %s" % (case, problem[1]), replay)
+    part.sample(dict(direction="fragmented-request", case=case))
+    return part
+
+
 def work(item):
+    if item[0] == "fragreq":
+        return work_fragmented_requests(item[1])
     if item[0] == "payload":
         return work_payloads(item[1])
     if item[0] == "environ":
@@ -993,7 +1070,7 @@ def run():
     items += [("rsp", ("errors",))]
     items += [("req", (m, p)) for m in METHODS for p in PATHS]
     items += [("pair", i) for i in range(len(PAIRKINDS))]
-    items += [("reuse", 0), ("environ", 0), ("payload", 0)]
+    items += [("reuse", 0), ("environ", 0), ("payload", 0), ("fragreq", 0)]
     items += [("seq", (c, q, f)) for c in (None, "HEAD") for q in ("one-by-one", "all-at-once") for f in SEQ_METHODS]
     ck.merge(core.pmap(work, items))
     ck.coverage_extra = dict(request_dimensions=dict(methods=len(METHODS), paths=len(PATHS), qarg_sets=len(qarg_sets()),
@@ -1030,6 +1107,9 @@ def run():
         "request names; every sequence of 2-3 requests over {json data=, form fargs=, raw body=, no payload} (non-GET methods, payload, qargs "
         "and headers passed explicitly each time) must reach the server with the same body / CONTENT_TYPE / CONTENT_LENGTH / HTTP_* as the same "
         "request on a fresh Patron",
+        "fragmented later request: on a keep-alive connection played by a raw client socket the first request arrives whole, the second "
+        "(POST with Content-Length, chunked PUT, GET) arrives in two receives cut at every offset with 1 or 2 Valet.serviceAll() passes in "
+        "between; the app must see the second request exactly as sent (method, path, body) and answer it",
         "by HTTP rules a response to HEAD and any 1xx / 204 / 304 response has no body: the body the client must see for those is empty whatever "
         "the application yields, the application's headers (including a Content-Length on a HEAD response) must still arrive, and no byte of "
         "such a response may stay in the client's receive buffer",
